@@ -30,6 +30,10 @@ fn main() {
                 "C17" => smlmc::e1c::run_c05_c17("C17", tier),
                 "C08" => smlmc::e1c::run_c08(tier),
                 "C14" => smlmc::e1c::run_c14(tier),
+                "C18" => smlmc::e5::run(tier),
+                "C15" => smlmc::e3::run_c15(tier),
+                "C11" => smlmc::e3::run_c11(tier),
+                "C10" => smlmc::e3::run_c10(tier),
                 "C03" => smlmc::e4::run("C03", tier),
                 "C04" => smlmc::e4::run("C04", tier),
                 "C06" => smlmc::e4::run("C06", tier),
@@ -50,6 +54,8 @@ fn main() {
                 Some("e2") => smlmc::e2::replay(&case),
                 Some("e1") => smlmc::e1::replay(&case),
                 Some("e4") => smlmc::e4::replay(&case),
+                Some("e5") => smlmc::e5::replay(&case),
+                Some("e3") => smlmc::e3::replay(&case),
                 _ => machinery("unknown engine in replay file"),
             };
             println!("replaying {} (recorded class: {})", path, class);
